@@ -147,6 +147,15 @@ func sentenceCases(m *ref.Model, l int, base []string, heavy bool, emit func(SCa
 			}
 		}
 	}
+	// tokens that look like formatting directives (an error built by passing the token as the format
+	// string would not name it); printable ASCII only, so that a quoting message leaves them intact
+	for _, fv := range []string{"%s", "%d", "%v%v", "%[2]d", "100%", "%%", "%!s(x)"} {
+		for _, p := range []int{0, n / 2, n - 1} {
+			t := append([]string(nil), base...)
+			t[p] = fv
+			mk(t, "format-verb-token")
+		}
+	}
 	// token damage at every position
 	for p := 0; p < n; p++ {
 		w := base[p]
